@@ -83,7 +83,15 @@ var c13Schema = []string{
 
 func c13GenStmt(r *core.Rand, ep string) c13Stmt {
 	id := 1 + r.Intn(9)
-	switch x := r.Intn(100); {
+	if ep == "request" && r.Bool(0.08) {
+		// queries (half of them failing at run time) are specific to the unified endpoint
+		return c13GenStmtAt(r, ep, id, 95)
+	}
+	return c13GenStmtAt(r, ep, id, r.Intn(100))
+}
+
+func c13GenStmtAt(r *core.Rand, ep string, id, x int) c13Stmt {
+	switch {
 	case x < 18: // insert, may hit PK or UNIQUE
 		name := fmt.Sprintf("n%d", id)
 		if r.Bool(0.15) {
@@ -144,6 +152,12 @@ func c13GenStmt(r *core.Rand, ep string) c13Stmt {
 	case x < 92:
 		return c13Stmt{Kind: "ctl", SQL: ""} // empty statement
 	default:
+		if ep == "request" && r.Bool(0.5) {
+			// read-only statements that PREPARE fine and fail when they RUN
+			return c13Stmt{Kind: "select", Rows: true, SQL: []string{"SELECT abs(-9223372036854775808)", "SELECT json_extract('{', '$.a')",
+				"SELECT id, abs(bal - 9223372036854775807 - 1) FROM acct ORDER BY id", "SELECT count(*) FROM acct WHERE json_extract('[1,', '$[0]') = id",
+				"SELECT like('a', 'b', 'toolong')"}[r.Intn(5)]}
+		}
 		if ep == "request" {
 			return c13Stmt{Kind: "select", Rows: true, SQL: []string{"SELECT count(*), sum(bal) FROM acct", "SELECT id, bal FROM acct ORDER BY id", "SELECT max(id) FROM audit"}[r.Intn(3)]}
 		}
@@ -910,9 +924,11 @@ func c13Run(c *core.Ctx, raw json.RawMessage) {
 			switch got {
 			case after:
 				c.Probe("unknown_outcome_applied")
-				if after != pre && !crashed && len(down) == 0 && tgt == ldr && s.Leader() == ldr {
+				if after != pre && !crashed && len(down) == 0 && tgt == ldr && s.Leader() == ldr && !c13RaftExplains(topErr, httpBody, callErr) {
 					// nothing was wrong with the cluster (no crash, all nodes up, same leader
-					// before and after, request sent to it): an applied request owes its results
+					// before and after, request sent to it) and the answer is not raft telling
+					// the client that it lost track of the entry (leadership lost and regained,
+					// apply timeout): an applied request owes its results
 					before.Close()
 					c.Violate("applied-without-results", "request %d (%s tx=%v roe=%v) was applied on every node but the client got no result list: http %d top-level error %q call error %v body %.200s\n  stmts: %s",
 						oi, op.Ep, op.Tx, op.Roe, httpCode, topErr, callErr, httpBody, c13StmtList(op))
@@ -977,6 +993,13 @@ func c13Run(c *core.Ctx, raw json.RawMessage) {
 					gotRes = gotRes[:len(gotRes)-1]
 				}
 			}
+			if len(gotRes) > len(expList) && op.Tx && c13AllReadOnly(op) {
+				// no data is at stake (every statement is a query); reported under its own
+				// class: such requests are served by the query path of the read-only pool
+				c.Violate("readonly-tx-continues-after-failure", "request %d (%s tx=true, %d statements, all read-only): execution did not stop at the first failing statement: %d results returned, %d expected\n  got:      %v\n  expected: %v\n  stmts: %s",
+					oi, op.Ep, nonEmpty, len(gotRes), len(expList), gotRes, expList, c13StmtList(op))
+				return
+			}
 			if len(gotRes) != len(expList) {
 				c.Violate("result-mismatch", "request %d (%s tx=%v roe=%v, %d non-empty statements): %d results returned, %d expected\n  got:      %v\n  expected: %v\n  stmts: %s",
 					oi, op.Ep, op.Tx, op.Roe, nonEmpty, len(gotRes), len(expList), gotRes, expList, c13StmtList(op))
@@ -997,6 +1020,12 @@ func c13Run(c *core.Ctx, raw json.RawMessage) {
 				}
 				if expList[j].Err != "" && expList[j].Err != gotRes[j].Err {
 					c.Probe("error_text_differs")
+				}
+				if expList[j].Err != "" && st.Kind == "select" {
+					c.Probe("readonly_statement_failed_at_run_time")
+					if op.Tx {
+						c.Probe("readonly_statement_failed_at_run_time_in_tx")
+					}
 				}
 				j++
 			}
@@ -1027,6 +1056,26 @@ func c13Run(c *core.Ctx, raw json.RawMessage) {
 	c.Res.Trivial = c.Res.Probes["requests_definite"] == 0
 	d, _ := sqlhDumpQ(ref)
 	c.Sig(fmt.Sprint(len(d)))
+}
+
+// c13RaftExplains: the error is one of raft's ways of saying "the entry may or
+// may not commit" (leadership lost while committing, not leader any more,
+// apply/enqueue timeout) - then the client legitimately has no results.
+func c13RaftExplains(topErr, body string, callErr error) bool {
+	t := strings.ToLower(topErr + " " + body)
+	if callErr != nil {
+		t += " " + strings.ToLower(callErr.Error())
+	}
+	return strings.Contains(t, "leader") || strings.Contains(t, "timeout") || strings.Contains(t, "timed out")
+}
+
+func c13AllReadOnly(op *c13Op) bool {
+	for _, st := range op.Stmts {
+		if st.SQL != "" && st.Kind != "select" {
+			return false
+		}
+	}
+	return true
 }
 
 func c13StmtList(op *c13Op) string {
